@@ -88,6 +88,48 @@ def write_set(prog, rep):
         rep.check(ok, "SAME-EVENTS", fi.short, "result", "same events, same order, none dropped", why, fi.loc())
 
 
+def url_keys(prog, rep):
+    rep.rule("URL-KEYS", "split_url_events: parsed = urlparse(event.data['url']); $protocol = scheme, $path = path, $params = params, $options = query, $identifier = fragment, and $domain = netloc with ONE leading 'www.' removed (slice under a prefix test / removeprefix); strip()/lstrip() take a character set, replace() removes inner occurrences")
+    from ..trace import deep
+
+    fi = prog.func("split_url_events")
+    want = {"$protocol": "scheme", "$path": "path", "$params": "params", "$options": "query", "$identifier": "fragment"}
+    got = {}
+    for n in walk_own(fi.node):
+        if isinstance(n, ast.Assign) and isinstance(n.targets[0], ast.Subscript) and isinstance(n.targets[0].slice, ast.Constant) and isinstance(n.targets[0].slice.value, str) and n.targets[0].slice.value.startswith("$"):
+            ev = n.targets[0].value.value.id if isinstance(n.targets[0].value, ast.Attribute) and isinstance(n.targets[0].value.value, ast.Name) else "event"
+            got[n.targets[0].slice.value] = (deep(n.value, fi, stop=(ev,)), n, ev)
+    for k, attr in want.items():
+        if k not in got:
+            rep.violation("URL-KEYS", fi.short, k, f"{k} is never written", fi.loc())
+            continue
+        v, n, ev = got[k]
+        ok = norm(v) in (f"urlparse({ev}.data['url']).{attr}", f"urllib.parse.urlparse({ev}.data['url']).{attr}")
+        rep.check(ok, "URL-KEYS", fi.short, k, f"urlparse(url).{attr}", f"{k} is `{norm(v)[:80]}`, not the {attr} of the event's url", fi.loc(n))
+    if "$domain" not in got:
+        rep.violation("URL-KEYS", fi.short, "$domain", "$domain is never written", fi.loc())
+        return
+    v, n, ev = got["$domain"]
+    N = f"urlparse({ev}.data['url']).netloc"
+    t = norm(v).replace("urllib.parse.urlparse", "urlparse")
+    good = {
+        f"{N}[4:] if {N}[:4] == 'www.' else {N}",
+        f"{N}[4:] if {N}.startswith('www.') else {N}",
+        f"{N} if {N}[:4] != 'www.' else {N}[4:]",
+        f"{N} if not {N}.startswith('www.') else {N}[4:]",
+        f"{N}.removeprefix('www.')",
+        f"re.sub('^www\\\\.', '', {N})",
+    }
+    if t in good:
+        rep.ok("URL-KEYS", fi.short, "$domain", "netloc minus one leading 'www.'", fi.loc(n))
+    elif any(isinstance(c, ast.Call) and isinstance(c.func, ast.Attribute) and c.func.attr in ("lstrip", "strip", "rstrip") and c.args and isinstance(c.args[0], ast.Constant) and isinstance(c.args[0].value, str) and len(c.args[0].value) > 1 for c in ast.walk(v)):
+        rep.violation("URL-KEYS", fi.short, "$domain", f"`{norm(n.value)[:70]}`: str.lstrip/strip take a SET of characters, not a prefix: 'wikipedia.org' loses its leading 'w', 'web.whatsapp.com' becomes 'eb.whatsapp.com'; the $domain key no longer holds the host", fi.loc(n), expected="netloc[4:] if netloc.startswith('www.') else netloc", found=norm(n.value))
+    elif any(isinstance(c, ast.Call) and isinstance(c.func, ast.Attribute) and c.func.attr == "replace" for c in ast.walk(v)):
+        rep.violation("URL-KEYS", fi.short, "$domain", f"`{norm(n.value)[:70]}` removes 'www.' wherever it occurs in the host, not only as a prefix", fi.loc(n))
+    else:
+        rep.undecided("URL-KEYS", fi.short, "$domain", f"unrecognised way of dropping the www. prefix: `{t[:100]}`", fi.loc(n))
+
+
 def category_choice(prog, rep):
     rep.rule("PICK", "_pick_category = reduce(_pick_deepest_cat, matches-in-rule-order, ['Uncategorized']); _pick_deepest_cat(acc, new) returns new on len(new) >= len(acc) (non-strict: the later rule wins ties), else acc; categorize/tag collect matches with a comprehension over `classes` in order filtered by rule.match(e) only")
     fi = prog.func("_pick_category")
@@ -297,11 +339,15 @@ def check(prog, rep):
     rep.trusted_base = ["re module semantics", "urllib.parse.urlparse results (values written under the $-keys)"]
     rep.not_decided = ["regex semantics", "URL parsing results"]
     write_set(prog, rep)
+    url_keys(prog, rep)
     category_choice(prog, rep)
     rule_match(prog, rep)
 
 
 VARIANTS = [
+    ("B www. dropped with lstrip (a character set)", "aw_transform/split_url_events.py", '            event.data["$domain"] = (\n                parsed_url.netloc[4:]\n                if parsed_url.netloc[:4] == "www."\n                else parsed_url.netloc\n            )', '            event.data["$domain"] = parsed_url.netloc.lstrip("www.")', "URL-KEYS"),
+    ("B $path holds the query string", "aw_transform/split_url_events.py", 'event.data["$path"] = parsed_url.path', 'event.data["$path"] = parsed_url.query', "URL-KEYS"),
+    ("OK www. dropped with startswith", "aw_transform/split_url_events.py", 'if parsed_url.netloc[:4] == "www."', 'if parsed_url.netloc.startswith("www.")', "ok"),
     ("B categorize rewrites timestamp", CL, '    e.data["$category"] = _pick_category(', '    e.timestamp = e.timestamp\n    e.data["$category"] = _pick_category(', "WRITE-SET"),
     ("B categorize clears data", CL, '    e.data["$category"] = _pick_category(', '    e.data = {}\n    e.data["$category"] = _pick_category(', "WRITE-SET"),
     ("B tag writes another key", CL, '    e.data["$tags"] = [', '    e.data["title"] = ""\n    e.data["$tags"] = [', "WRITE-SET"),
